@@ -8,6 +8,7 @@ import (
 
 	"github.com/miekg/dns"
 	"github.com/semihalev/sdns/internal/dnsname"
+	"github.com/semihalev/sdns/internal/dnsutil"
 	"github.com/semihalev/zlog/v2"
 )
 
@@ -209,4 +210,63 @@ func ReleaseConn(co *Conn) {
 	co.Conn = nil
 
 	connPool.Put(co)
+}
+
+// answerChain returns the records of answer that belong to the alias chain
+// starting at qname, in their original order: everything owned by qname, the
+// DNAME (and its signature) of an ancestor that redirects it, and then the
+// same for each CNAME or DNAME target in turn. Records of unrelated owners
+// are dropped.
+func answerChain(answer []dns.RR, qname string) []dns.RR {
+	keep := make([]bool, len(answer))
+	kept := 0
+	cur := dns.CanonicalName(qname)
+
+	// Each pass either moves to a new target or stops, and a target can only
+	// come from a record not yet kept, so len(answer) passes are enough and
+	// a loop in the chain terminates.
+	for range answer {
+		next := ""
+		for i, rr := range answer {
+			if keep[i] {
+				continue
+			}
+			owner := dns.CanonicalName(rr.Header().Name)
+			covered := rr.Header().Rrtype
+			if sig, ok := rr.(*dns.RRSIG); ok {
+				covered = sig.TypeCovered
+			}
+			switch {
+			case owner == cur:
+				keep[i] = true
+				kept++
+				if cname, ok := rr.(*dns.CNAME); ok {
+					next = dns.CanonicalName(cname.Target)
+				}
+			case covered == dns.TypeDNAME && dnsutil.NameInZone(cur, owner):
+				// A DNAME redirects the names strictly below its owner;
+				// owner == cur was the case above.
+				keep[i] = true
+				kept++
+				if dname, ok := rr.(*dns.DNAME); ok && next == "" {
+					next = dns.CanonicalName(cur[:len(cur)-len(owner)] + dname.Target)
+				}
+			}
+		}
+		if next == "" || next == cur {
+			break
+		}
+		cur = next
+	}
+
+	if kept == len(answer) {
+		return answer
+	}
+	out := make([]dns.RR, 0, kept)
+	for i, rr := range answer {
+		if keep[i] {
+			out = append(out, rr)
+		}
+	}
+	return out
 }
